@@ -55,6 +55,9 @@ type Trace struct {
 	TopDeletes             int // acknowledged DELETE of an installed ipv4/ipv6/mpls entry
 }
 
+// Protect runs f and returns the panic value and stack if it panicked.
+func Protect(f func()) (panicked string) { return protect(f) }
+
 func protect(f func()) (panicked string) {
 	defer func() {
 		if r := recover(); r != nil {
